@@ -455,6 +455,19 @@ def run_C09(ctx):
             groups.append(g)
             allc += g
             abs_cases += g
+    # positioned first (no data yet), exported at once, resumed: must continue at that position
+    for mode in [m for m in STREAM_MODES if m != "ofb"]:
+        for _ in range(ctx.n(6, 60)):
+            bs, w = pick_matrix(rng, mode)
+            key = rb(rng, 16)
+            iv, cls = stream_iv(rng, mode, bs, key)
+            p = rng.choice([1, 2, w, rng.randrange(1, 2 ** 20)])
+            n = rng.randrange(1, 2 * w + 3)
+            g = [Case("core", mode, bs, w, key, iv, ops=[f"setpos {p}", f"ksblocks {n}", "ivstate"], role="whole", cls_iv=cls),
+                 Case("core", mode, bs, w, key, iv, ops=[f"setpos {p}", "ivstate", "reinit", f"ksblocks {n}", "ivstate"], role="cut", cls_iv=cls)]
+            groups.append(g)
+            allc += g
+            abs_cases += g
     # buffered CFB: resume at every byte position
     for mode in ["cfbbuf-enc", "cfbbuf-dec"]:
         for _ in range(ctx.n(12, 200)):
